@@ -636,6 +636,9 @@ def mslread_error():
 GENERATORS["msloptable"] = gen_msloptable
 
 
+import c06gen  # C06: Gen/FoldTables.v
+GENERATORS["foldtables"] = lambda tools: c06gen.generate(sys.modules[__name__], tools)
+
 import c14gen  # C14: Gen/OverrideOps.v
 GENERATORS["overrides"] = lambda tools: c14gen.generate(sys.modules[__name__], tools)
 
